@@ -419,38 +419,49 @@ func corr(args []string) {
 				}
 			}
 		}
-		// batch level: the addenda record indicator of one entry per batch
+		// batch level: the addenda record indicator of one entry per batch; the case lists every entry of the
+		// batch in order (the loop of IATBatch.isAddendaSequence stops inspecting at the first correction entry)
 		indicators := []int{0, 1, 2, 7, 9, 10, -1}
 		for _, b := range f.Batches {
-			if f.IsADV() || len(b.GetEntries()) == 0 {
+			es := b.GetEntries()
+			if f.IsADV() || len(es) == 0 {
 				continue
 			}
-			e := b.GetEntries()[r.Intn(len(b.GetEntries()))]
-			old := e.AddendaRecordIndicator
+			k := r.Intn(len(es))
+			old := es[k].AddendaRecordIndicator
 			for _, v := range indicators {
-				e.AddendaRecordIndicator = v
-				cases.Printf("B EntryDetail AddendaRecordIndicator=i:%d %s\n", v, subFlags(e, p.Subs["EntryDetail"]))
+				es[k].AddendaRecordIndicator = v
+				var parts []string
+				for _, e := range es {
+					parts = append(parts, fmt.Sprintf("AddendaRecordIndicator=i:%d %s", e.AddendaRecordIndicator, subFlags(e, p.Subs["EntryDetail"])))
+				}
+				cases.Printf("B EntryDetail %d %s\n", k, strings.Join(parts, " | "))
 				impl.Printf("%s\n", safeBatchValidate(b))
 				total++
 				batchCases++
 			}
-			e.AddendaRecordIndicator = old
+			es[k].AddendaRecordIndicator = old
 		}
-		for k := range f.IATBatches {
-			b := &f.IATBatches[k]
-			if len(b.GetEntries()) == 0 {
+		for j := range f.IATBatches {
+			b := &f.IATBatches[j]
+			es := b.GetEntries()
+			if len(es) == 0 {
 				continue
 			}
-			e := b.GetEntries()[r.Intn(len(b.GetEntries()))]
-			old := e.AddendaRecordIndicator
+			k := r.Intn(len(es))
+			old := es[k].AddendaRecordIndicator
 			for _, v := range indicators {
-				e.AddendaRecordIndicator = v
-				cases.Printf("B IATEntryDetail AddendaRecordIndicator=i:%d %s\n", v, subFlags(e, p.Subs["IATEntryDetail"]))
+				es[k].AddendaRecordIndicator = v
+				var parts []string
+				for _, e := range es {
+					parts = append(parts, fmt.Sprintf("AddendaRecordIndicator=i:%d %s", e.AddendaRecordIndicator, subFlags(e, p.Subs["IATEntryDetail"])))
+				}
+				cases.Printf("B IATEntryDetail %d %s\n", k, strings.Join(parts, " | "))
 				impl.Printf("%s\n", safeBatchValidate(b))
 				total++
 				batchCases++
 			}
-			e.AddendaRecordIndicator = old
+			es[k].AddendaRecordIndicator = old
 		}
 	}
 	cases.Close()
